@@ -87,7 +87,7 @@ def run_campaign(prop, tier, v, wd, rng, fams=None, sample=None):
             for i, sc in enumerate(scs):
                 devs, taps = to_devs(sc)
                 # a dropped / forged optional value only shows when the hidden bit is 1: repeat
-                reps = 4 if any(d.get("m") in ("ToNoneAny", "ToNoneAll", "ToSomeAny", "Clear") for d in devs) else 1
+                reps = 4 if any(d.get("m") in ("ToNone", "ToNoneAny", "ToNoneAll", "ToSomeAny", "Clear") for d in devs) else 1
                 for k in range(reps):
                     jobs.append(ej.job(f"{name}.{fam}.{i}.{k}", circ, ej.rand_inputs(rng, circ), pe, po, cap=1,
                                        pol=ej.policy(rng, n), events=False, devs=devs, taps=taps,
